@@ -64,7 +64,7 @@ def _nontrivial(op, impl):
 
 def correspond(ctx):
     if ctx.thorough():
-        args = ['n=30000', 'probes=60000', 'pgas=20000', 'deep=4']
+        args = ['n=30000', 'probes=60000', 'pgas=20000', 'deep=4', 'arity=2']
         timeout = 1500
     else:
         args = ['n=2500', 'probes=6000', 'pgas=2500', 'deep=2']
@@ -115,7 +115,7 @@ def search(ctx, hints):
     broken = bool(hints.get('broken'))
     n = 40000 if (ctx.thorough() or broken) else 4000
     env = dict(VERIF_SEED=str(ctx.seed), VERIF_TIER=ctx.tier, VERIF_CORPUS=os.path.join(vlib.VERIF, 'corpus', ctx.pid), GOMEMLIMIT='6GiB')
-    rc, so, se = vlib.run([binp, 'mode=search', 'n=%d' % n], cwd=cwd, env=env, timeout=900 if ctx.thorough() else (300 if broken else 240))
+    rc, so, se = vlib.run([binp, 'mode=search', 'n=%d' % n, 'arity=%d' % (2 if ctx.thorough() else 1)], cwd=cwd, env=env, timeout=900 if ctx.thorough() else (300 if broken else 240))
     import shutil
     shutil.rmtree(cwd, ignore_errors=True)
     res = dict(evaluations=0, distinct_nontrivial=0, samples=[], violations=[])
